@@ -285,10 +285,21 @@ func (cc *cacheController) flush() {
 	for k, sem := range cc.rlockSems {
 		sem.RUnlock()
 		delete(cc.rlockSems, k)
+		cc.dropUncommittedLine(k)
 	}
 	for k, sem := range cc.lockSems {
 		sem.Unlock()
 		delete(cc.lockSems, k)
+		cc.dropUncommittedLine(k)
+	}
+}
+
+// dropUncommittedLine removes from L1 a line the cancelled request had already
+// fetched but whose protocol state was never set: it must not stay resident
+// while the directory says invalid.
+func (cc *cacheController) dropUncommittedLine(addr comp.AlignedAddress) {
+	if cc.msi.states[msiEntry{cc.id, addr}] == invalid {
+		_, _ = cc.l1d.EvictCacheLine(addr)
 	}
 }
 
